@@ -25,6 +25,7 @@ package concurrent_map
 //@ func (m *shard) len [C11]
 //@   requires m != nil
 //@   ensures result == atlock(len(m.m))
+//@   ensures 0 <= result && result <= 281474976710656
 
 //@ func (m *shard) del [C11]
 //@   requires m != nil
@@ -49,3 +50,26 @@ package concurrent_map
 //@ func (m *Map) getShard [C11]
 //@   requires m != nil
 //@   ensures result != nil && result == &m.shards[key.Sum() % 64]
+
+// NewMapCache: every one of the 64 shards gets the per-shard maximum size/64 (truncated).
+//@ func NewMapCache [C11]
+//@   ensures result != nil && fresh(result)
+//@   ensures forall i int :: 0 <= i && i < 64 ==> result.shards[i].max == ite(size >= 0, size / 64, 0 - ((0 - size) / 64)) && result.shards[i].m != nil
+//@   loop 0:
+//@     invariant m != nil && fresh(m) && 0 <= it0 && it0 <= 64
+//@     invariant forall i int :: 0 <= i && i < it0 ==> m.shards[i].max == sizePreShard && m.shards[i].m != nil
+
+//@ func (m *Map) Get [C11]
+//@   requires m != nil
+//@ func (m *Map) Set [C11]
+//@   requires m != nil
+//@ func (m *Map) Del [C11]
+//@   requires m != nil
+//@ func (m *Map) Len [C11]
+//@   requires m != nil
+//@   loop 0:
+//@     invariant m != nil && 0 <= it0 && it0 <= 64 && 0 <= l && l <= it0 * 281474976710656
+//@ func (m *Map) Flush [C11]
+//@   requires m != nil
+//@   loop 0:
+//@     invariant m != nil
